@@ -589,7 +589,7 @@ func tryInsertLiteral(ad *classad.ClassAd, attr, valueStr string) error {
 	}
 
 	// Number literals
-	if len(valueStr) > 0 && (valueStr[0] == '-' || (valueStr[0] >= '0' && valueStr[0] <= '9')) {
+	if isPlainNumber(valueStr) {
 		// Try integer first
 		if !strings.Contains(valueStr, ".") {
 			if val, err := strconv.ParseInt(strings.TrimSpace(valueStr), 10, 64); err == nil {
@@ -610,7 +610,7 @@ func tryInsertLiteral(ad *classad.ClassAd, attr, valueStr string) error {
 	if len(trimmed) >= 2 && trimmed[0] == '"' && trimmed[len(trimmed)-1] == '"' {
 		// Simple string without escape sequences
 		unquoted := trimmed[1 : len(trimmed)-1]
-		if !strings.Contains(unquoted, "\\") {
+		if !strings.ContainsAny(unquoted, "\\\"") {
 			_ = ad.Set(attr, unquoted) // ClassAd.Set always returns nil, safe to ignore
 			return nil
 		}
@@ -618,6 +618,49 @@ func tryInsertLiteral(ad *classad.ClassAd, attr, valueStr string) error {
 
 	// Not a simple literal, caller should use full parser
 	return fmt.Errorf("not a simple literal")
+}
+
+// isPlainNumber reports whether s is a decimal literal that the full ClassAd
+// parser reads the same way strconv does: an optional '-', digits without a
+// redundant leading zero, and optionally a fraction with digits on both sides of
+// the dot and an exponent. Anything else (hex floats, digit separators, "1.",
+// "010", ...) is left to the full parser, which rejects it.
+func isPlainNumber(s string) bool {
+	i := 0
+	if i < len(s) && s[i] == '-' {
+		i++
+	}
+	digits := func() int {
+		start := i
+		for i < len(s) && s[i] >= '0' && s[i] <= '9' {
+			i++
+		}
+		return i - start
+	}
+	start := i
+	if n := digits(); n == 0 || (n > 1 && s[start] == '0') {
+		return false
+	}
+	if i == len(s) {
+		return true
+	}
+	if s[i] != '.' {
+		return false
+	}
+	i++
+	if digits() == 0 {
+		return false
+	}
+	if i < len(s) && (s[i] == 'e' || s[i] == 'E') {
+		i++
+		if i < len(s) && (s[i] == '+' || s[i] == '-') {
+			i++
+		}
+		if digits() == 0 {
+			return false
+		}
+	}
+	return i == len(s)
 }
 
 // decodeOldClassAdString decodes the content between the quotes of an OLD-ClassAd
